@@ -103,7 +103,22 @@ def run(ck, rng, tier):
             X = Q_ * s
             s = np.sort(s)[::-1]
             ck.count("uncorrelated variables, last / a middle one dominant")
-        npc = rng.randint(1, min(3, len(s))) if c != 10 else 7
+        elif c == 11:
+            # integer-valued (designed) data with integer column means: cells that are bitwise equal to their column mean
+            # (preprocessed value exactly 0.0), centring only, several components
+            n, m, scaling, mag, nproc = 12, 4, 0, 1.0, 1
+            for _try in range(50):
+                cols_ = []
+                for j in range(m):
+                    v = [float(rng.randint(-3, 3)) for _ in range(n - 1)]
+                    v.append(-sum(v))
+                    cols_.append(np.array(v) * (9.0, 5.0, 3.0, 2.0)[j] + float(rng.randint(-4, 4)))
+                X = np.column_stack(cols_)
+                s = np.linalg.svd(X - X.mean(axis=0), compute_uv=False)
+                if (s[1:] / s[:-1]).max() <= 0.85 and s[-1] > 0.05 * s[0] and ((X - X.mean(axis=0)) == 0.0).sum() >= 3:
+                    break
+            ck.count("designed integer data with cells equal to their column mean")
+        npc = rng.randint(1, min(3, len(s))) if c not in (10, 11) else (7 if c == 10 else 3)
         # the property presumes rank >= number of components AFTER preprocessing (a column whose scale
         # falls inside the zero guard is dropped by the preprocessing; centring costs one rank)
         E0_ = preprocess(X, scaling)
